@@ -1069,7 +1069,7 @@ def sprtME (cfg : Cfg) (x : List Rat) : List XR × List XR :=
 def sprtHist (cfg : Cfg) (x : List Rat) : List XR :=
   let u := cfg.u
   let m := (sprtME cfg x).1
-  let etas := (sprtME cfg x).2
+  let etas := (((sprtME cfg x).2).zip m).map (fun (e, mj) => XR.npmax e mj)
   let factors := (x.zip (etas.zip m)).map fun (xj, e, mj) =>
     ((XR.fin xj) * e / mj + (XR.fin (u - xj)) * ((XR.fin u) - e) / ((XR.fin u) - mj)) / (XR.fin u)
   ((m.zip (XR.cumprod factors)).map (fun (mj, T) => maskTermX u (2 * eps) (1 / 1000000) mj T)).map
